@@ -1078,6 +1078,42 @@ def _through_property(repo, ci, e, pol):
     return e, pol
 
 
+def r5_standin(ctx):
+    """C04.R5, second half: a packet the proxy itself puts on a translated circuit with an explicit packet_id (the
+    PacketAck standing in for a dropped packet) carries a wire ID: get_effective_id(...) of the tracker of its
+    direction, fed to track_seen before it is sent.  (Without packet_id the ID comes from gen_injectable_id.)"""
+    repo = ctx.repo
+    pc = repo.cls("ProxiedCircuit", CIRC)
+    sites = []
+    for m in pc.methods.values():
+        for c in calls(m.node, into_defs=True):
+            if isinstance(c.func, ast.Attribute) and ap(c.func.value) == "self" and c.func.attr in ("send_acks", "send"):
+                pid = kw(c, "packet_id")
+                if pid is not None and not (isinstance(pid, ast.Constant) and pid.value is None):
+                    sites.append((m, c, pid))
+    ctx.stats["C04.R5.explicit packet_id sends"] = len(sites)
+    for m, c, pid in sites:
+        ok, why = False, f"packet_id={norm(pid)} is not a translated ID"
+        if isinstance(pid, ast.Name) and _stored_once(m, pid.id):
+            src_ = next((st.value for st in stores(m.node, into_defs=True) if st.path == pid.id and st.kind == "assign"), None)
+            if isinstance(src_, ast.Call) and isinstance(src_.func, ast.Attribute) and src_.func.attr == "get_effective_id":
+                tracker = ap(src_.func.value)
+                cfg = CFG(m.node)
+                tgt = cfg.stmt_nodes_containing(c)
+
+                def feeds(n):
+                    return n.kind == "stmt" and n.ast is not None and any(
+                        ap(x.func) == f"{tracker}.track_seen" and len(x.args) == 1 and ap(x.args[0]) == pid.id for x in calls(n.ast))
+                wit = None
+                for t in tgt:
+                    wit = wit or cfg.witness_path(cfg.entry, lambda n, t=t: n is t, avoid=feeds, exc=False)
+                ok = bool(tgt) and wit is None
+                why = f"{tracker}.track_seen({pid.id}) does not precede the send on every path"
+        ctx.ob("C04.R5", f"{m.qual}: `{norm(c)}` goes out under a translated and tracked wire ID", ok, ctx.w(m, c),
+               why + ": the packet takes a slot in the wire sequence, so an untranslated / unseen ID collides with an injected "
+                     "one or is handed out again by the next injection")
+
+
 def _is_len_deq(e):
     return isinstance(e, ast.Call) and ap(e.func) == "len" and len(e.args) == 1 and ap(e.args[0]) == DEQ
 
@@ -1088,6 +1124,7 @@ def run(ctx):
     r3_symmetry(ctx)
     r4(ctx)
     r5(ctx)
+    r5_standin(ctx)
     r6(ctx)
     r7(ctx)
     r7_lifetime_and_wire(ctx)
